@@ -147,7 +147,7 @@ func TestC18Core(t *testing.T) {
 					rc.resp, rc.err = rc.req.Get("http://core.test/" + strconv.Itoa(n) + "-" + strconv.Itoa(r))
 					close(rc.finished)
 				}(rc, a.R)
-				if !waitCh(rc.atServer, 3*time.Second) {
+				if !waitCh(rc.atServer, 20*time.Second) {
 					stuck = fmt.Sprintf("request %d never reached the server (step %d)", a.R, i)
 				}
 			case "answer":
@@ -159,19 +159,19 @@ func TestC18Core(t *testing.T) {
 						lost = true
 					}
 				}
-				if !lost && !waitCh(rc.atGate, 3*time.Second) {
+				if !lost && !waitCh(rc.atGate, 20*time.Second) {
 					stuck = fmt.Sprintf("worker %d never reached the gate after its CAS (step %d)", a.R, i)
 				}
 			case "deliver":
 				close(rc.gateGo)
 			case "recv":
-				if !waitCh(rc.finished, 3*time.Second) {
+				if !waitCh(rc.finished, 20*time.Second) {
 					stuck = fmt.Sprintf("caller %d did not return after the delivery (step %d)", a.R, i)
 				}
 			case "cancel":
 				rc.cancel()
 				if cs.Result[strconv.Itoa(a.R)].Kind == "timeout" {
-					if !waitCh(rc.finished, 3*time.Second) {
+					if !waitCh(rc.finished, 20*time.Second) {
 						stuck = fmt.Sprintf("caller %d did not return after cancel (step %d)", a.R, i)
 					}
 				} else {
@@ -215,7 +215,7 @@ func TestC18Core(t *testing.T) {
 			default:
 				close(rc.gateGo)
 			}
-			if !waitCh(rc.finished, 3*time.Second) && stuck == "" {
+			if !waitCh(rc.finished, 20*time.Second) && stuck == "" {
 				stuck = fmt.Sprintf("caller %d never returned", r)
 			}
 			res := coreRes{}
